@@ -35,6 +35,16 @@ def build_fixture(root):
     open(os.path.join(tz, "TruncFooter"), "wb").write(good[:fstart + 1])
     open(os.path.join(tz, "TruncNoFooter"), "wb").write(good[:fstart])
     open(os.path.join(tz, "TruncMidRule"), "wb").write(good[:fstart + 5])
+    # a second zone directory and names used only after the process changed its environment (phase 2)
+    tz2 = os.path.join(root, "tzdir2")
+    os.makedirs(os.path.join(tz, "P2"), exist_ok=True)
+    os.makedirs(os.path.join(tz2, "P2"), exist_ok=True)
+    shutil.copy(os.path.join(src, "Asia", "Tokyo"), os.path.join(tz, "P2", "OnlyIn1"))
+    shutil.copy(os.path.join(src, "America", "New_York"), os.path.join(tz, "P2", "Both"))
+    shutil.copy(os.path.join(src, "Australia", "Sydney"), os.path.join(tz2, "P2", "OnlyIn2"))
+    shutil.copy(os.path.join(src, "Europe", "London"), os.path.join(tz2, "P2", "Both"))
+    shutil.copy(os.path.join(src, "Europe", "Paris"), os.path.join(tz2, "P2", "Local"))
+    shutil.copy(os.path.join(src, "Asia", "Kolkata"), os.path.join(tz, "P2", "Local"))
     open(os.path.join(tz, "Garbage"), "wb").write(b"this is not a zone file\n" * 10)
     open(os.path.join(tz, "Empty"), "wb").write(b"")
     types = [(-18000, False, b"EST"), (-14400, True, b"EDT")]
@@ -107,6 +117,37 @@ def run(pid, tier, seed):
                     verdict.infra_failure("drv_names: " + r.stderr[-200:])
                 else:
                     verdict.violation("driver-crash:rc%d" % r.returncode, "drv_names died in env %r: %s" % ((td, tz_, lt), r.stderr[-400:]))
+                continue
+            f.write(r.stdout)
+    # ---- processes that change their environment between loads (setenv/unsetenv of TZDIR, TZ, LOCALTIME): the
+    # value in force at the time of each call decides; phase-2 names were never asked for before (the name
+    # cache legitimately keeps earlier answers)
+    tzdir2 = os.path.join(fx, "tzdir2")
+    names2 = [b"P2/OnlyIn1", b"P2/OnlyIn2", b"P2/Both", b"P2/Missing", b"file:P2/Both"]
+    nf1 = os.path.join(work, "names_p1.txt")
+    open(nf1, "w").write("".join(n.hex() + "\n" for n in [b"X", b"America/New_York", b"Nope/Missing", b"localtime"]))
+    nf2 = os.path.join(work, "names_p2.txt")
+    open(nf2, "w").write("".join(n.hex() + "\n" for n in names2))
+    U = "@unset"
+    switches = [((tzdir, None, None), (tzdir2, "P2/Local", U)), ((tzdir2, None, None), (tzdir, ":P2/Local", U)),
+                ((None, None, None), (tzdir2, "P2/Local", U)), ((tzdir, "X", None), (U, "P2/Local", U)),
+                (("", None, None), (tzdir, "localtime", os.path.join(tzdir2, "P2", "Local"))),
+                ((tzdir, "localtime", abs_syd), (tzdir2, "localtime", os.path.join(tzdir2, "P2", "OnlyIn2")))]
+    with open(out, "a") as f:
+        for (td, tz_, lt), (td2, tz2, lt2) in switches:
+            e = {k: v for k, v in os.environ.items() if k not in ("TZDIR", "TZ", "LOCALTIME")}
+            e["ASAN_OPTIONS"] = "detect_leaks=0"
+            for k, v in (("TZDIR", td), ("TZ", tz_), ("LOCALTIME", lt)):
+                if v is not None:
+                    e[k] = v
+            r = subprocess.run([exe, nf1, "--drop-privileges", "--then", td2 if td2 != "" else "@empty", tz2, lt2, nf2], env=e,
+                               stdout=subprocess.PIPE, stderr=subprocess.PIPE, text=True, timeout=300)
+            nproc += 1
+            if r.returncode != 0:
+                if r.returncode in (3, 4):
+                    verdict.infra_failure("drv_names: " + r.stderr[-200:])
+                else:
+                    verdict.violation("driver-crash:rc%d" % r.returncode, "drv_names died after an environment switch %r: %s" % ((td2, tz2, lt2), r.stderr[-400:]))
                 continue
             f.write(r.stdout)
     lines = open(out).read().splitlines()
